@@ -2,6 +2,9 @@
 
 #include "psc/types/types.h"
 #include "psc/array.h"
+#ifdef PSEUDOENGINE2_VERIF
+#include "verif.h"
+#endif
 
 using namespace PSC;
 
@@ -55,6 +58,9 @@ void Array::init(Context &ctx) {
         size *= dim.getSize();
     }
 
+#ifdef PSEUDOENGINE2_VERIF
+    PE2Verif::allocCells(size, ctx);
+#endif
     data.reserve(size);
 
     size_t capacity = data.capacity();
